@@ -29,19 +29,74 @@ type ReplayFile struct {
 	Nd       []gsx.NdVal       `json:"nd"`
 	PathCond []string          `json:"path_condition,omitempty"`
 	Repeat   int               `json:"repeat,omitempty"` // schedule-dependent: run the harness this many times natively
+	Delays   []gsx.DelaySite   `json:"delays,omitempty"` // schedule-dependent: hold goroutines back at these operations to follow the explored schedule
 	Note     string            `json:"note,omitempty"`
 	Output   string            `json:"native_output,omitempty"`
 }
 
 var harnessFn = regexp.MustCompile(`(?m)^func (VerifH_\w+)\(\)`)
 
+// delayInstrument returns src with a delay point inserted in front of each listed line: the
+// Occ-th time control reaches the line, the goroutine sleeps for Ms milliseconds.
+func delayInstrument(src []byte, sites []gsx.DelaySite, tag string) []byte {
+	lines := strings.Split(string(src), "\n")
+	sort.Slice(sites, func(i, j int) bool { return sites[i].Line > sites[j].Line })
+	for i, d := range sites {
+		if d.Line < 1 || d.Line > len(lines) {
+			continue
+		}
+		stmt := fmt.Sprintf("vfDelayPoint%s(%d, %d, %d)", tag, i, d.Occ, d.Ms)
+		lines = append(lines[:d.Line-1], append([]string{stmt}, lines[d.Line-1:]...)...)
+	}
+	for i, l := range lines {
+		if pkgClause.MatchString(l) {
+			imp := fmt.Sprintf("import vftime%s \"time\"; import vfatomic%s \"sync/atomic\"", tag, tag)
+			lines[i] = l + "; " + imp
+			break
+		}
+	}
+	lines = append(lines, fmt.Sprintf("var vfDelayCnt%s [%d]int32", tag, len(sites)+1),
+		fmt.Sprintf("func vfDelayPoint%s(i int, occ int32, ms int) {\n\tif vfatomic%s.AddInt32(&vfDelayCnt%s[i], 1) == occ {\n\t\tvftime%s.Sleep(vftime%s.Duration(ms) * vftime%s.Millisecond)\n\t}\n}", tag, tag, tag, tag, tag, tag))
+	return []byte(strings.Join(lines, "\n"))
+}
+
 // materialize writes the overlay files under dir and returns the overlay json path.
 func materialize(dir string) (string, error) {
+	return materializeDelays(dir, nil)
+}
+
+func materializeDelays(dir string, delays []gsx.DelaySite) (string, error) {
 	ov, _, err := buildOverlay()
 	if err != nil {
 		return "", err
 	}
 	repl := map[string]string{}
+	byFile := map[string][]gsx.DelaySite{}
+	for _, d := range delays {
+		byFile[d.File] = append(byFile[d.File], d)
+	}
+	nf := 0
+	for file, sites := range byFile {
+		if src, ok := ov[file]; ok {
+			// a harness file: instrument the overlay content itself
+			ov[file] = delayInstrument(src, sites, fmt.Sprintf("%d", nf))
+			nf++
+			continue
+		}
+		src, err := os.ReadFile(file)
+		if err != nil {
+			continue
+		}
+		f := filepath.Join(dir, "ov", fmt.Sprintf("delay%d_%s", nf, filepath.Base(file)))
+		if err := os.MkdirAll(filepath.Dir(f), 0o755); err != nil {
+			return "", err
+		}
+		if err := os.WriteFile(f, delayInstrument(src, sites, fmt.Sprintf("%d", nf)), 0o644); err != nil {
+			return "", err
+		}
+		repl[file] = f
+		nf++
+	}
 	byPkg := map[string][]string{} // repo dir -> harness names
 	pkgName := map[string]string{}
 	var targets []string
@@ -91,7 +146,35 @@ func runNative(rel, harness, ndPath, scratch string, timeout time.Duration) (rep
 }
 
 func runNativeN(rel, harness, ndPath, scratch string, timeout time.Duration, repeat int) (reproduced bool, out string, err error) {
-	ovPath, err := materialize(scratch)
+	return runNativeDelays(rel, harness, ndPath, scratch, timeout, repeat, nil)
+}
+
+// runSchedule replays a violation natively. A schedule-dependent one is first run once with
+// delay points that make the native scheduler follow the explored interleaving (the native
+// failure has to be the predicted one), then repeatedly without them.
+func runSchedule(rel string, v *gsx.Violation, ndPath, scratch string, timeout time.Duration) (bool, string, error) {
+	if len(v.Delays) > 0 {
+		// each delay outlasts everything that was held back before it (explored order)
+		ds := append([]gsx.DelaySite{}, v.Delays...)
+		sum := 0
+		for i := range ds {
+			ds[i].Ms += sum
+			sum = ds[i].Ms
+			if sum > 15000 {
+				ds = ds[:i]
+				break
+			}
+		}
+		ok, out, err := runNativeDelays(rel, v.Harness, ndPath, filepath.Join(scratch, "d"), timeout, 1, ds)
+		if err == nil && ok && (v.Kind != "assert" || strings.Contains(out, v.Msg)) {
+			return true, out + "\n(reproduced with delay points following the explored schedule)", nil
+		}
+	}
+	return runNativeN(rel, v.Harness, ndPath, scratch, timeout, repeatFor(v))
+}
+
+func runNativeDelays(rel, harness, ndPath, scratch string, timeout time.Duration, repeat int, delays []gsx.DelaySite) (reproduced bool, out string, err error) {
+	ovPath, err := materializeDelays(scratch, delays)
 	if err != nil {
 		return false, "", err
 	}
@@ -145,7 +228,7 @@ func replayViolation(rel string, v *gsx.Violation, scratch string, timeout time.
 	if err := writeReplayFile(nd, rf); err != nil {
 		return false, "", err
 	}
-	return runNativeN(rel, v.Harness, nd, scratch, timeout, repeatFor(v))
+	return runSchedule(rel, v, nd, scratch, timeout)
 }
 
 // repeatFor: a violation that needs context switches chosen by the explorer cannot be forced
@@ -174,7 +257,7 @@ func replayMain(path string) int {
 	if rep < 1 {
 		rep = 1
 	}
-	ok, out, err := runNativeN(relPkg(rf.Pkg), rf.Harness, path, scratch, 120*time.Second, rep)
+	ok, out, err := runSchedule(relPkg(rf.Pkg), &gsx.Violation{Harness: rf.Harness, Kind: rf.Kind, Msg: rf.Msg, Delays: rf.Delays, Preempts: rep - 1}, path, scratch, 120*time.Second)
 	fmt.Println(tail(out, 40))
 	if err != nil {
 		fmt.Fprintln(os.Stderr, err)
